@@ -36,6 +36,15 @@ PROPS = {
         "note": "Trusted: the multi-version model, the verif-tag accessors; tombstones are compared as entries carrying the delete bit (what the API returns).",
         "design_ref": "7/C02", "assumptions": E1_ASSUME,
     },
+    "C12": {
+        "engine": "dbsim", "level": "exploration", "budget": {"quick": 25, "thorough": 600},
+        "title": "Clean close and reopen preserve contents and timestamp monotonicity",
+        "technique": "deterministic simulation: seeded plain/versioned/transactional histories with maintenance, 1-6 clean close/reopen cycles (optionally with another memtable engine/cache size); all-version dump before vs after; commit-version monotonicity probe",
+        "rule": "case = seeded history through one of the three write APIs + maintenance + reopen steps under the configuration swarm; at every reopen the complete all-version contents (cf, key, version, meta, expiry, value resolved through the value log) before Close are compared with those after Open; for transactional databases the first commit after reopen must get a version above every stored version; distinct = distinct trace hash; non-trivial = at least one reopen with >3 steps",
+        "level_text": "Seeded search over histories and configurations; the oracle is equality of two dumps of the same database, so it is independent of any read-path model.",
+        "note": "Trusted: the dump through DB.NewInternalIterator (first copy per internal key) and the VerifResolve accessor.",
+        "design_ref": "7/C12", "assumptions": E1_ASSUME,
+    },
 }
 
 # Merge per-engine registries (props_<engine>.py).
